@@ -193,6 +193,35 @@ func streamAlloc(thorough bool) {
 				emitA(v, "parse", hexS(bad), hexS(vec), "-", minAllocs(n, func() { ms.parse(vec); ms.parse(bad) }, func() { ms.parse(vec) }))
 			}
 		}
+		// every kind of rejection (token edits of every vector shape: each group combination, an element too many, too few,
+		// repeated, unknown, illegal …) followed by a valid parse: an error path that forgets to hand a pooled buffer back
+		// shows as extra allocations of the NEXT call
+		{
+			var rej []string
+			for _, w := range v.skeletons() {
+				rej = append(rej, v.tokenEdits(w)...)
+			}
+			rej = dedupe(rej)
+			rng.Shuffle(len(rej), func(i, j int) { rej[i], rej[j] = rej[j], rej[i] })
+			limit := 250
+			if thorough {
+				limit = 4000
+			}
+			okVec := v.vector(objs[len(objs)-1])
+			ms := v.measurer(objs[len(objs)-1])
+			cnt := 0
+			for _, bad := range rej {
+				if cnt >= limit {
+					break
+				}
+				if _, err := v.parse(bad); err == nil {
+					continue
+				}
+				cnt++
+				bad := bad
+				emitA(v, "parse", hexS(bad), hexS(okVec), "-", minAllocs(5, func() { ms.parse(okVec); ms.parse(bad) }, func() { ms.parse(okVec) }))
+			}
+		}
 		if v.rating != nil {
 			ms := v.measurer(zero)
 			for _, x := range []float64{0, 0.05, 3.9, 4, 9.9, 10, 11, -1, math.Inf(1)} {
